@@ -44,7 +44,10 @@ Print Assumptions C19_upload_contained.
 
 (* "an uploaded file appears under its final name only when complete": after ANY prefix of the operations (crash at
    any point, any pre-existing entries incl. symlinks at the final or the temporary name) the final name shows its
-   old entry or the complete file; no operation went through a symlink; no other entry changed *)
+   old entry or the complete file; no operation went through a symlink; no other entry changed -- EXCEPT the temporary
+   `final.partial` (the frame below says q <> final ++ ext): whatever is there is truncated and, in the end, gone.  A stale
+   leftover is meant to go; but the service also accepts `x.partial` as a final name of its own, and then this is a published
+   file: C19_upload_name_is_temporary_refuted below (known finding oracle/upload-name-is-another-uploads-temporary) *)
 Theorem C19_atomic_publish : forall s0 final blocks k, no_dir_at s0 final ->
   wf_st s0 -> unshared s0 (final ++ putfile_tmp_ext) -> clean s0 -> no_dir_at s0 (final ++ putfile_tmp_ext) ->
   let s := run s0 (firstn k (upload_ops final blocks Done)) in
@@ -155,31 +158,88 @@ Theorem C19_fs_invariant : forall s o, Inv s -> Inv (step s o) /\ Inv (step_faul
 Proof. exact fs_invariant. Qed.
 Print Assumptions C19_fs_invariant.
 
+(* ... but Inv forbids EVERY hard link in the directory, which is more than is needed: only a TEMPORARY that is truncated and
+   written must not be a second name of another entry's inode.  The weaker invariant InvT T (inode numbers below `next`; a name
+   in T shares its inode with no other name) is kept by every operation that does not rename an entry from outside T to a name in
+   T, performed or failing, and by a restart; the operations of an upload never do (they rename `final.partial`, which is in
+   T = is_utmp = "ends in the temporary extension").  The upload-history theorems below are stated under InvT is_utmp: hard links
+   among the other entries are allowed (lib: ex_hardlinks_ok is such a directory; Inv implies InvT T for every T: Inv_InvT).
+   Likewise the registry theorems (rstate_ok: InvT with T = the one name services.json.tmp) and C19_gatherer_symlinks (T = the two
+   names it opens).  STILL UNDER THE STRONGER Inv (honest label: not weakened in this round): C19_concurrent_symlink_refuted's
+   witness and C19_concurrent_distinct_names (two uploads at once) -- Inv is sufficient there, not shown necessary. *)
+Theorem C19_fs_invariant_temporaries : forall T s o, InvT T s ->
+  (keepsT T o -> InvT T (step s o)) /\ InvT T (step_fault s o) /\ InvT T (reboot s).
+Proof. exact fs_invariant_T. Qed.
+Print Assumptions C19_fs_invariant_temporaries.
+
+Theorem C19_upload_ops_keep_temporaries : forall final blocks oc o, In o (upload_ops final blocks oc) -> keepsT is_utmp o.
+Proof. exact upload_ops_keepsT. Qed.
+Print Assumptions C19_upload_ops_keep_temporaries.
+
 (* "only ever ... directly inside", "only when complete", "neither a partial file under the final name ...", for ALL
    HISTORIES: any sequence of uploads (any accepted names, any block lists, each completed, interrupted by the source,
    or killed before any of its operations), every one starting on the directory its predecessors left behind (stale
    `.partial` files included), with symlinks planted at arbitrary names between the calls: no operation ever goes
    through a symlink, directories stay, and every name that is not the temporary of one of the uploads shows its
    initial entry, a planted link, or the COMPLETE content of an upload sent under that name.  No hypothesis on the
-   initial directory beyond the invariant.  SEQUENTIAL: one upload at a time touches a given name; two OVERLAPPING uploads
+   initial directory beyond the (weaker) invariant InvT is_utmp: no `*.partial` name is a hard link of another entry.  THE LAST CONJUNCT SAYS NOTHING ABOUT A NAME THAT IS THE TEMPORARY OF ONE OF THE
+   UPLOADS (~ In q (utmps es)) -- also when that name is the FINAL name of another upload of the history: the statement at every
+   final name, with that exclusion as its explicit guard, is C19_upload_history_final_names; that the guard cannot be dropped is
+   C19_upload_name_is_temporary_refuted.  SEQUENTIAL: one upload at a time touches a given name; two OVERLAPPING uploads
    of the same name share `<name>.partial` (one inode) and are outside every theorem of this file -- the harness replays
    them on the code (oracle/overlapping-uploads-same-name-tear-file). *)
 Theorem C19_upload_history_sequential : forall s0 es,
-  Inv s0 -> failed s0 = false -> followed s0 = false ->
-  Inv (uhistory s0 es) /\ failed (uhistory s0 es) = false /\ followed (uhistory s0 es) = false /\
+  InvT is_utmp s0 -> failed s0 = false -> followed s0 = false ->
+  InvT is_utmp (uhistory s0 es) /\ failed (uhistory s0 es) = false /\ followed (uhistory s0 es) = false /\
   dsame s0 (uhistory s0 es) /\
   (forall q, ~ In q (utmps es) -> uallowed s0 es q (look (uhistory s0 es) q)).
-Proof. exact uhistory_safe. Qed.
+Proof. exact (uhistory_safe_gen (InvT is_utmp) good_inv_InvT). Qed.
 Print Assumptions C19_upload_history_sequential.
+
+(* the same at EVERY FINAL NAME of the history, under the exact guard `no final name of the history is the temporary of an upload
+   of the history` (no_name_collision: nobody uploads both `x` and `x.partial`): each single event leaves each final name as it
+   was, or plants a link there, or publishes the complete content of an upload sent under that very name -- a published file
+   stays until something is sent under its own name --, and at the end each final name shows its initial entry, a planted link or
+   the complete content of one of its uploads.  (Inside the guard: lib ex_hist_no_collision.) *)
+Theorem C19_upload_history_final_names : forall s0 es1 e es2,
+  InvT is_utmp s0 -> failed s0 = false -> followed s0 = false -> no_name_collision (es1 ++ e :: es2) ->
+  forall f, In f (ufinals (es1 ++ e :: es2)) ->
+    (look (uhistory s0 (es1 ++ [e])) f = look (uhistory s0 es1) f \/
+     (exists t, e = UPlant f t /\ look (uhistory s0 (es1 ++ [e])) f = VLink t) \/
+     (exists blocks k, e = UUpload f blocks Done k /\ look (uhistory s0 (es1 ++ [e])) f = VFile (concat blocks))) /\
+    uallowed s0 (es1 ++ e :: es2) f (look (uhistory s0 (es1 ++ e :: es2)) f).
+Proof. exact (uhistory_final_names (InvT is_utmp) good_inv_InvT). Qed.
+Print Assumptions C19_upload_history_final_names.
+
+(* ... and the guard cannot be dropped, the service does not enforce it (FINDING, known:
+   oracle/upload-name-is-another-uploads-temporary): putfile("x.partial", COMPLETE) succeeds and publishes x.partial; then
+   putfile("x", ..) -- (a) the source fails after a block: the error path unlinks x.partial, the published file is gone, the
+   directory is EMPTY; (b) the process is killed after its first write: x.partial, a published final name, holds a prefix of
+   ANOTHER upload (in the model the empty prefix: the block is still in the dead process's buffer).  Sequential, names only.
+   Replayed on the code by the harness (collision histories) and compared with this model. *)
+Theorem C19_upload_name_is_temporary_refuted :
+  let xp := ex_final ++ putfile_tmp_ext in
+  let s0 := mk_st [] [] in
+  let up1 := UUpload xp [ex_complete] Done 99%nat in
+  let err := UUpload ex_final [[97; 97]]%N SrcError 99%nat in
+  let kill := UUpload ex_final [[97; 97]; [98; 98]]%N Done 3%nat in
+  Inv s0 /\ clean s0 /\
+  look (uhistory s0 [up1]) xp = VFile ex_complete /\ names (uhistory s0 [up1]) (xp ++ putfile_tmp_ext) = None /\
+  In xp (ufinals [up1; err]) /\ In xp (utmps [up1; err]) /\ ~ no_name_collision [up1; err] /\ ~ no_name_collision [up1; kill] /\
+  look (uhistory s0 [up1; err]) xp = VNone /\ look (uhistory s0 [up1; err]) ex_final = VNone /\
+  look (uhistory s0 [up1; kill]) xp = VFile [] /\
+  ~ uallowed s0 [up1; kill] xp (look (uhistory s0 [up1; kill]) xp).
+Proof. exact upload_name_is_temporary_refuted. Qed.
+Print Assumptions C19_upload_name_is_temporary_refuted.
 
 (* recovery: after any such history an upload that runs to completion publishes the complete file, leaves no temporary *)
 Theorem C19_upload_recovery_sequential : forall s0 es final blocks,
-  Inv s0 -> failed s0 = false -> followed s0 = false ->
+  InvT is_utmp s0 -> failed s0 = false -> followed s0 = false ->
   names s0 (final ++ putfile_tmp_ext) <> Some D -> names s0 final <> Some D ->
   look (run (uhistory s0 es) (upload_ops final blocks Done)) final = VFile (concat blocks) /\
   names (run (uhistory s0 es) (upload_ops final blocks Done)) (final ++ putfile_tmp_ext) = None /\
   failed (run (uhistory s0 es) (upload_ops final blocks Done)) = false.
-Proof. exact uhistory_recovers. Qed.
+Proof. exact (uhistory_recovers (InvT is_utmp) good_inv_InvT). Qed.
 Print Assumptions C19_upload_recovery_sequential.
 
 (* a link planted WHILE a call runs (between the islink() test and open()) IS followed: containment does not hold against
@@ -223,14 +283,43 @@ Print Assumptions C19_registry_recovery.
 
 (* ======================= the remaining read / write paths ======================= *)
 
-(* "... or read": list_incident_names (remote_list_incidents, catch_up): every file reported and opened is an entry of the
-   log directory itself that carries the prefix, whatever `since` the peer sends *)
-Theorem C19_listing_contained : forall base listing since n p, wf_base base ->
+(* "... or read": list_incident_names (remote_list_incidents, catch_up) ON A DIRECTORY STATE: every file reported -- and then
+   opened by get_incident_trigger -- is an entry of the log directory itself that carries the prefix (lexically) AND is not a
+   symbolic link (physically), whatever `since` the peer sends.  The second half needs the `if os.path.islink(fullname): continue`
+   of the source (fix 81004d7; finding oracle/publisher-listing-follows-symlink before it): the flag is translated from the
+   source and the proof is applied to it with eq_refl -- without the test this theorem does not build. *)
+Theorem C19_listing_contained : forall s base listing since n p, wf_base base ->
   (forall fn, In fn listing -> goodb fn = true) ->
-  In (n, p) (list_incidents base listing since) ->
-  inside base p /\ exists fn, In fn listing /\ p = base ++ sep :: fn /\ prefixb listing_prefix fn = true.
-Proof. exact listing_contained. Qed.
+  In (n, p) (list_incidents_at s base listing since) ->
+  inside base p /\ is_link s p = false /\
+  exists fn, In fn listing /\ p = base ++ sep :: fn /\ prefixb listing_prefix fn = true.
+Proof. exact (listing_contained_at eq_refl). Qed.
 Print Assumptions C19_listing_contained.
+
+(* ... so EVERY sequence of reads of reported files (remote_list_incidents reads all of them in listing order, catch_up one per
+   basename in sorted order) goes through no symbolic link, on every directory state *)
+Theorem C19_listing_reads_no_link : forall s base listing since ops, followed s = false ->
+  (forall o, In o ops -> exists n p, o = ROpen p /\ In (n, p) (list_incidents_at s base listing since)) ->
+  followed (rrun s ops) = false.
+Proof. exact (listing_reads_contained eq_refl). Qed.
+Print Assumptions C19_listing_reads_no_link.
+
+(* "... or read", the gatherer's side: IncidentObserver.connect reads `latest` of its own directory (and sends the content to the
+   publisher as since=); a symbolic link there is not read through (fix f12f98a; finding
+   oracle/gatherer-state-read-follows-symlink before it; eq_refl on the translated flag as above) *)
+Theorem C19_gatherer_state_read : forall s base, wf_base base ->
+  followed (rrun s (connect_read_ops base)) = followed s /\
+  (forall o, In o (connect_read_ops base) -> exists p, (o = ROpen p \/ o = ROpenUnlessLink p) /\ inside base p).
+Proof. intros s base Hb. split; [exact (connect_read_safe eq_refl s base)|intros o Ho; exact (connect_read_contained base o Hb Ho)]. Qed.
+Print Assumptions C19_gatherer_state_read.
+
+(* the lstat test in front of a read is NECESSARY: a bare open() of a name that is a symbolic link goes through it, the
+   guarded one does not (this is what the code did before the two fixes; lib: listing_unguarded_follows,
+   connect_read_unguarded_follows say so for the unguarded translation) *)
+Theorem C19_unguarded_read_refuted : forall s p t, failed s = false -> names s p = Some (L t) ->
+  followed (rstep s (ROpen p)) = true /\ followed (rstep s (ROpenUnlessLink p)) = followed s.
+Proof. exact read_link_follows. Qed.
+Print Assumptions C19_unguarded_read_refuted.
 
 (* both files written per incident (savefile and `latest`) *)
 Theorem C19_gatherer_writes_contained : forall cwd base name l q, wf_base base ->
@@ -241,33 +330,43 @@ Print Assumptions C19_gatherer_writes_contained.
 (* ======================= symbolic links AT the names the gatherer writes / the publisher reads ======================= *)
 
 (* "only ever create, replace ... directly inside ... (names of existing symlinks)", PHYSICALLY, for the gatherer's two writes
-   (`<name>.flog.bz2`, `latest`).  Whether save_incident / update_latest remove a pre-existing link before opening is read off
-   the source: with both guards no prefix of the call goes through a link (first conjunct); without the guard on the savefile
-   (resp. on `latest`) a link at that name IS followed (second, third conjunct).  On the pinned tree neither guard exists: the
-   second and third conjuncts are the live ones -- finding oracle/gatherer-follows-preexisting-symlink. *)
-Theorem C19_gatherer_symlinks :
-  (gatherer_save_guarded && gatherer_latest_guarded = true ->
-   forall s q latest chunks ltext k, Inv s -> failed s = false -> followed s = false ->
-     names s q <> Some D -> names s latest <> Some D ->
-     followed (run s (firstn k (gatherer_ops q latest chunks ltext))) = false) /\
-  (gatherer_save_guarded = false ->
-   forall s q latest t chunks ltext, failed s = false -> names s q = Some (L t) ->
-     followed (run s (gatherer_ops q latest chunks ltext)) = true) /\
-  (gatherer_latest_guarded = false ->
-   forall s q latest t chunks ltext, Inv s -> failed s = false -> followed s = false -> gatherer_save_guarded = true ->
-     names s q <> Some D -> q <> latest -> names s latest = Some (L t) ->
-     followed (run s (gatherer_ops q latest chunks ltext)) = true).
-Proof. exact gatherer_symlinks. Qed.
+   (`<name>.flog.bz2`, `latest`): no prefix of the call goes through a symbolic link, whatever is at the two names beforehand.
+   UNCONDITIONAL: whether save_incident / update_latest remove a pre-existing link before opening is read off the source
+   (gatherer_save_guarded, gatherer_latest_guarded in gen/UploadGen.v; both guards are there since fix 34db49e, finding
+   oracle/gatherer-follows-preexisting-symlink before it) and the lemma is applied to the translated flags with eq_refl: if
+   either guard goes away the flag translates to false and THIS PROOF NO LONGER BUILDS.
+   (lib/UploadHistProofs.gatherer_symlinks keeps the flag-keyed form: with a guard missing the link IS followed.) *)
+Theorem C19_gatherer_symlinks : forall s q latest chunks ltext k,
+  InvT (fun x => x = q \/ x = latest) s -> failed s = false -> followed s = false -> names s q <> Some D -> names s latest <> Some D ->
+  followed (run s (firstn k (gatherer_ops q latest chunks ltext))) = false.
+Proof. exact (proj1 gatherer_symlinks eq_refl). Qed.
 Print Assumptions C19_gatherer_symlinks.
 
-(* "... or read": remote_get_incident opens the selected file; a link there is read through unless the code refuses links
-   (on the pinned tree it does not: finding oracle/publisher-follows-preexisting-symlink) *)
-Theorem C19_publisher_symlinks :
-  (publisher_link_refused = true -> forall s cwd base name, publisher_reads_through_link s cwd base name = false) /\
-  (publisher_link_refused = false ->
-   forall s cwd base name paths p t, publisher_paths cwd base name = Some paths -> publisher_opened s paths = Some p ->
-     names s p = Some (L t) -> publisher_reads_through_link s cwd base name = true).
-Proof. exact publisher_symlinks. Qed.
+(* ... and the guard is NECESSARY: the same write without `if islink(p): unlink(p)` in front of the open goes through a link
+   at p (what save_incident / update_latest did before the fix), with it (file_write_ops true) it does not *)
+Theorem C19_unguarded_write_refuted : forall s p t chunks, failed s = false -> names s p = Some (L t) ->
+  followed (run s (file_write_ops false p chunks)) = true /\
+  (InvT (eq p) s -> followed s = false -> followed (run s (file_write_ops true p chunks)) = false).
+Proof.
+  intros s p t chunks Hf E. split; [exact (proj1 (write_unguarded_follows s p t chunks Hf E))|].
+  intros HI Hfl. assert (Hnd : names s p <> Some D) by (rewrite E; discriminate).
+  pose proof (write_guarded_safe (eq p) s p chunks (List.length (file_write_ops true p chunks)) eq_refl HI Hf Hfl Hnd) as (A & _).
+  rewrite firstn_all in A. exact A.
+Qed.
+Print Assumptions C19_unguarded_write_refuted.
+
+(* "... or read": remote_get_incident opens the selected file behind `if os.path.islink(fn): raise KeyError` (fix 6af30bc; finding
+   oracle/publisher-follows-preexisting-symlink before it): on every directory state, for every name, the read goes through no
+   symbolic link.  UNCONDITIONAL, eq_refl on the translated flag publisher_link_refused as above; the read is an operation list
+   (publisher_read_ops: ROpenUnlessLink | ROpen) run by the read semantics rstep -- necessity of the test:
+   C19_unguarded_read_refuted *)
+Theorem C19_publisher_symlinks : forall s cwd base name,
+  publisher_reads_through_link s cwd base name = false /\
+  (forall o, In o (publisher_read_ops s cwd base name) -> exists p, o = ROpenUnlessLink p).
+Proof.
+  intros s cwd base name. split; [exact (proj1 publisher_symlinks eq_refl s cwd base name)|].
+  exact (publisher_read_ops_guarded eq_refl s cwd base name).
+Qed.
 Print Assumptions C19_publisher_symlinks.
 
 (* ======================= a system call of an upload FAILS (errno instead of death) ======================= *)
@@ -276,12 +375,12 @@ Print Assumptions C19_publisher_symlinks.
    statement, the handler of the publishing rename still runs --: the final name shows its old entry or the complete file,
    nothing goes through a link, no other entry changes *)
 Theorem C19_upload_fault_atomic : forall s0 final blocks oc k,
-  Inv s0 -> failed s0 = false -> followed s0 = false ->
+  InvT is_utmp s0 -> failed s0 = false -> followed s0 = false ->
   followed (upload_fault k s0 final blocks oc) = false /\
   (forall q, q <> final ++ putfile_tmp_ext -> q <> final -> look (upload_fault k s0 final blocks oc) q = look s0 q) /\
   (look (upload_fault k s0 final blocks oc) final = look s0 final \/
    (oc = Done /\ look (upload_fault k s0 final blocks oc) final = VFile (concat blocks))).
-Proof. exact upload_fault_atomic. Qed.
+Proof. exact (upload_fault_atomic (InvT is_utmp) good_inv_InvT). Qed.
 Print Assumptions C19_upload_fault_atomic.
 
 (* ... but "nor a leftover temporary" does not survive a failing f.close() (ENOSPC at flush) in _done or _err: the unlink after
